@@ -1183,7 +1183,8 @@ class ABNFGrammarNodeVisitor(NodeVisitor):
     @staticmethod
     def visit_defined_as(node: Node):
         """Returns defined-as operator."""
-        return node.value.strip()
+        # the operator is the only literal child; the c-wsp children around it may hold comments.
+        return next(child.value for child in node.children if child.name == "literal")
 
     def visit_element(self, node: Node):
         """Creates a parser object from element node."""
